@@ -12,6 +12,7 @@ import OcVerif.Driver.RtWake
 import OcVerif.Driver.RtCancel
 import OcVerif.Driver.RtStop
 import OcVerif.Driver.RtSock
+import OcVerif.Driver.RtConn
 import OcVerif.Driver.Co
 import OcVerif.Driver.Local
 import OcVerif.Driver.Beans
@@ -52,6 +53,7 @@ def dispatch (comp : String) : Option (String → String → Verdict) :=
   | "rtcancel" => some Driver.RtCancel.drive
   | "rtstop" => some Driver.RtStop.drive
   | "rtsock" => some Driver.RtSock.drive
+  | "rtconn" => some Driver.RtConn.drive
   | "co" => some Driver.Co.drive
   | "local" => some Driver.Local.drive
   | "beans" => some Driver.Beans.drive
